@@ -438,7 +438,7 @@ mod if_alloc {
         /// Verification hook: keeps the shared state alive and observable
         /// without being a sender or receiver handle.
         #[cfg(futures_intrusive_verif)]
-        pub struct VerifPeek<MutexType, T>
+        pub struct OneshotVerifPeek<MutexType, T>
         where
             MutexType: RawMutex,
             T: 'static,
@@ -447,7 +447,7 @@ mod if_alloc {
         }
 
         #[cfg(futures_intrusive_verif)]
-        impl<MutexType, T> VerifPeek<MutexType, T>
+        impl<MutexType, T> OneshotVerifPeek<MutexType, T>
         where
             MutexType: RawMutex,
             T: 'static,
@@ -466,8 +466,8 @@ mod if_alloc {
             T: 'static,
         {
             /// Verification hook: an uncounted reference to the shared state
-            pub fn verif_peek(&self) -> VerifPeek<MutexType, T> {
-                VerifPeek {
+            pub fn verif_peek(&self) -> OneshotVerifPeek<MutexType, T> {
+                OneshotVerifPeek {
                     inner: self.inner.clone(),
                 }
             }
